@@ -293,6 +293,23 @@ def discharge_unwrap_const_utf8(db, mono, fn, site):
     return "from_utf8 of a constant all-ASCII byte array (const-generic bytes <= 127 in all %d instantiations)" % (len(mono.by_dp.get(fn.dp, [])) if mono else 0)
 
 
+def discharge_constant_initializer(db, fn, site):
+    """`<constructor>(constant..).unwrap()/expect()` inside the initialiser of a `static` (Lazy::new(|| ..)): every operand
+    is a compile-time constant, so the outcome is the same on every run and independent of any input; it is exercised by
+    any execution that touches the static, in particular by the pinned test suite."""
+    if fn.kind != "Closure" or not fn.path.rsplit("::{closure", 1)[0] in {s_["path"] for s_ in db.statics}:
+        return None
+    recv = fn_expr_operand(fn, site.term["args"][0])
+    if recv[0] != "call":
+        return None
+    leaves = []
+    walk_expr(recv, lambda n: leaves.append(n) if n[0] in ("param", "undef", "cycle", "deep", "other", "field") else None)
+    if leaves:
+        return None
+    consts = [l for l in expr_leaves(recv) if l[0] in ("const", "static")]
+    return "input-independent: %s applied to %d compile-time constant(s) inside the initialiser of static %s" % (recv[1].rsplit("::", 2)[-2] + "::" + recv[1].rsplit("::", 1)[-1], len(consts), fn.path.rsplit("::{closure", 1)[0].rsplit("::", 1)[-1])
+
+
 def _bound_ok(fn, e, depth=3):
     """is a slice bound a trusted offset: producer result, or find/char_indices result + 1, or const 0/1;
     results of local functions are followed into the callee's Ok(..) payloads"""
